@@ -83,7 +83,7 @@ def stmt_level(sim, enabled):
 
 
 @contextlib.contextmanager
-def installed(sim, durations=()):
+def installed(sim, durations=(), warn_raises=False):
     import joblib.parallel as jp
     import joblib._parallel_backends as pb
     saved = [(jp, "time", jp.time), (pb, "ThreadPool", pb.ThreadPool), (pb, "MemmappingPool", pb.MemmappingPool),
@@ -105,7 +105,11 @@ def installed(sim, durations=()):
     pb.get_memmapping_executor = get_exec
     warned = []
     sim.warned = warned
-    w = types.SimpleNamespace(warn=lambda *a, **k: warned.append(str(a[0])[:120] if a else ""),
+    def _warn(*a, **k):
+        warned.append(str(a[0])[:120] if a else "")
+        if warn_raises:
+            raise UserWarning(str(a[0])[:120] if a else "")      # python -W error
+    w = types.SimpleNamespace(warn=_warn,
                               catch_warnings=jp.warnings.catch_warnings, simplefilter=lambda *a, **k: None)
     jp.warnings = w
     pb.warnings = w
@@ -148,6 +152,7 @@ def make_backend(kind, sim, n_workers):
 
         def configure(self, n_jobs=1, parallel=None, **kw):
             self.parallel = parallel
+            self._terminated = False
             sim.sp("configure")
             return n_workers
 
@@ -180,7 +185,13 @@ def make_backend(kind, sim, n_workers):
             return out[1]
 
         def retrieve_result(self, out, timeout=None):
+            if kind == "stub_legacy" and getattr(self, "_terminated", False):
+                # a backend whose job handles die with it (remote store, closed connection)
+                raise RuntimeError("result requested after the backend was terminated")
             return out.get(timeout)
+
+        def terminate(self):
+            self._terminated = True
 
         def abort_everything(self, ensure_ready=True):
             sim.sp("abort")
@@ -244,7 +255,7 @@ def run(cfg, sched):
             raise TaskError("task %d of call %d failed" % (i, call_no))
         return (call_no, i)
 
-    with stmt_level(sim, cfg.get("stmt")), installed(sim, durations):
+    with stmt_level(sim, cfg.get("stmt")), installed(sim, durations, cfg.get("warn_raises", False)):
         import joblib.parallel as jp            # the instrumented copy when statement-level switching is on
         sim.executor_state["kill_at"] = cfg.get("kill_at")
         be = make_backend(cfg["backend"], sim, cfg["n_workers"])
@@ -331,7 +342,10 @@ def consume(sim, p, holder, c, rec, out):
     end = c.get("end", "exhaust")
     rec["submitted_before_end"] = sim.n_submitted
     if end == "close":
-        gen.close()
+        try:
+            gen.close()
+        except Warning as e:          # warnings turned into errors
+            rec["close_raised"] = repr(e)
     elif end == "drop":
         del it
         del gen
